@@ -1212,6 +1212,8 @@ package grpctunnel
 //@     assert[C17] @channel id(arg2) == c && arg2 is *tunnelChannel && arg1 is tunnelChannelContextKey
 //@   at store deref.ch#1
 //@     assert[C17] @calloption arg1 is *tunnelChannel && id(arg1) == c
+//@   never[C02] @appendonly call Set
+//@   never[C02] @nodelete   call Delete
 //@   ensures[C04]     @closed   old(c.finished) ==> result2 != nil && result0 == nil && c.lastStreamID == old(c.lastStreamID) && c.streams == old(c.streams)
 //@   ensures[C08]     @exhausted (old(c.lastStreamID) < 0 || old(c.lastStreamID) == math.MaxInt64) ==> result2 != nil
 //@   ensures[C08]     @nextid   result2 == nil ==> result0 != nil && result0.streamID == old(c.lastStreamID) + 1 && result0.streamID > old(c.lastStreamID) && c.lastStreamID == result0.streamID && c.streamCreated
@@ -1366,6 +1368,10 @@ package grpctunnel
 //@   at go#1
 //@     assert[C04,C11] @fresh c.useRevision == 0 && c.settings == nil && !isClosed(c.awaitSettings) && c.streams != nil && !c.finished && c.lastStreamID == 0 && !c.streamCreated
 //@     assert[C17]     @tunnelmd c.tunnelMetadata == tunnelMetadata && c.stream == stream && c.serverSendsSettings == serverSendsSettings && c.tunnelOpts == opts
+//@   at select#1
+//@     assert[C04,C09,C11] @settingsorend blocking && arg0 == c.awaitSettings && arg1 == doneOf(c.ctx)
+//@   at call WithCancel#1
+//@     assert[C04,C17] @fromcarrier count("carrier.Context") == 1
 //@   ensures[C04] @nonnil result != nil
 //@   ensures[C14] @oneloop count("go") == 1
 //@   assigns *
@@ -1606,7 +1612,9 @@ package grpctunnel
 //@   ghost r bool = false
 //@   at aftercall ready#1
 //@     ghost r = result
-//@   ensures[C12] @delegates count("call:ready") == 1 && result == r
+//@   ensures[C12] @delegates count("call:ready") == 1
+//@   ensures[C12] @answer result == r
+//@   never[C12] @readonly call pick
 //@   assigns *
 //@ func (multiChannel).WaitForReady
 //@   ghost r error = nil
@@ -1614,7 +1622,9 @@ package grpctunnel
 //@     assert[C12] @ctx arg0 == ctx
 //@   at aftercall waitForReady#1
 //@     ghost r = result
-//@   ensures[C12] @delegates count("call:waitForReady") == 1 && result == r
+//@   ensures[C12] @delegates count("call:waitForReady") == 1
+//@   ensures[C12] @answer result == r
+//@   never[C12] @readonly call pick
 //@   assigns *
 
 //@ funcfield (*multiChannel).pick ()
@@ -1713,13 +1723,22 @@ package grpctunnel
 //@ func (*pendingChannel).Start
 //@   requires ctx != nil
 //@   ghost hdr metadata.MD = nil
+//@   ghost carrierCtx context.Context = nil
+//@   ghost openmd metadata.MD = nil
+//@   at aftercall Context#1
+//@     ghost carrierCtx = result
+//@   at call FromOutgoingContext#1
+//@     assert[C17] @carrierread count("carrier.Context") == 1
+//@     assert[C17] @fromcarrier arg0 == carrierCtx
+//@   at aftercall FromOutgoingContext#1
+//@     ghost openmd = result0
 //@   at aftercall Header#1
 //@     ghost hdr = result0
 //@   at call Get#1
 //@     assert[C11] @peerheader arg0 == hdr
 //@   at call newTunnelChannel#1
 //@     assert[C15] @wrapped stream is *threadSafeOpenTunnelClient && arg0 == stream
-//@     assert[C17] @reqmd arg1 == reqMD
+//@     assert[C17] @reqmd arg1 == reqMD && arg1 == openmd
 //@     assert[C11] @flag arg2 == (len(vals) > 0 && vals[0] == "on")
 //@   assigns *
 
